@@ -249,13 +249,15 @@ def part_mixed_user(_):
     for ev in (['cur', 'EUR'], ['cur', 'USD'], ['type', 'NR', None, None],
                ['unit', 'NR', 'nr1', ['none']],
                ['type', 'UB', 'ub0', None],
+               ['type', 'Pct', '%', None],
+               ['unit', 'Pct', '%vol', ['scaled', 'i:2', '%']],
                ['dtype', 'PPM', [['Money', 1], ['Mass', -1]], None, None],
                ['unit', 'PPM', 'EUR/kg', ['derive', ['EUR', 'kg']]]):
         w.must(ev)
     from quantity.money import Money, MoneyConverter
     conv = MoneyConverter(w.units['EUR'], lambda: date(2020, 1, 1))
     conv.update(None, [(w.units['USD'], O.dec('D:1.25'), 1)])
-    mine = ['EUR', 'nr1', 'ub0', 'EUR/kg']
+    mine = ['EUR', 'nr1', 'ub0', 'EUR/kg', '%', '%vol']
     theirs = ['m', 'kg', '°C', 'B', 'kWh']
 
     def sweep(tag):
